@@ -51,6 +51,9 @@ def burg_case(draw, dtype="any", extra=None):
         x["range"] = draw(st.sampled_from([[-1, 1], [-3, 3], [-1, 1], [0, 1], [-2, 2]]))
         x["n"] = n = draw(st.integers(4, 12))
         x.pop("gain", None)
+    if x["kind"] in ("noise", "ar") and draw(st.integers(0, 7)) == 7:
+        # zero-stuffed record (up-sampler output): every odd-lag product cancels exactly, k_1 = k_3 = ... = 0.0
+        x["zero_stuff"] = draw(st.sampled_from([2, 2, 3]))
     if x["kind"] == "tones" and x.get("noise", 0.0) < 0.01:
         # "tones in noise": keep the prediction error non-degenerate by construction
         x["noise"] = draw(st.sampled_from([0.01, 0.1, 1.0]))
@@ -358,3 +361,14 @@ def c13_layout(ctx, case):
          "in double precision")
 def c13_single(ctx, case):
     _dt.single_body(ctx, case, _dt.TABLES["C13"])
+
+
+# ---- call-form invariance (documented parameter names) ----------------------------
+from vlib import kwcheck as _kw   # noqa: E402
+
+
+@sub("C13.keywords", strategy=_kw.kw_case(_kw.PROPS["C13"]), quick=200, thorough=4000,
+     doc="the same call with its trailing arguments given by their documented names (any split, any order) returns the same "
+         "result as the positional call, and every documented name is accepted: " + ", ".join(_kw.PROPS["C13"]))
+def c13_keywords(ctx, case):
+    _kw.body(ctx, case)
